@@ -1,6 +1,7 @@
 import OH.Props.C13
 import OH.Props.C07E
 import OH.Props.TablesC07
+import OH.Props.ArithC07
 #print axioms OH.Props.C13.normalizeM_eq
 #print axioms OH.Props.C13.C13_no_panic
 #print axioms OH.Props.C13.normalize_eq_of_ok
@@ -15,3 +16,11 @@ import OH.Props.TablesC07
 #print axioms OH.Props.C07E.C13_every_parsed_expression
 #print axioms OH.Props.C07E.C13_every_normal_form_prints_and_reparses
 #print axioms OH.Props.TablesC07.C07_frames
+#print axioms OH.Props.ArithC07.year_succ_agree
+#print axioms OH.Props.ArithC07.year_pred_agree
+#print axioms OH.Props.ArithC07.week_succ_agree
+#print axioms OH.Props.ArithC07.week_pred_agree
+#print axioms OH.Props.ArithC07.year_succ_in_frame
+#print axioms OH.Props.ArithC07.year_pred_in_frame
+#print axioms OH.Props.ArithC07.week_succ_in_frame
+#print axioms OH.Props.ArithC07.week_pred_in_frame
